@@ -82,8 +82,6 @@ Lemma loc_ensure_size : forall s z, loc s (ensure_size s z).
 Proof. intros s z. unfold ensure_size. destruct (fsize s >=? z); unfold loc; repeat split. Qed.
 Lemma loc_stats : forall s n, loc s (stats_update s n).
 Proof. intros s n. unfold stats_update. destruct (crznum s >? FSM_MAX_STATS_COUNT); unfold loc; repeat split. Qed.
-Lemma loc_solid : forall s o n, loc s (solid s o n).
-Proof. intros s o n. unfold solid. destruct (ensure_ok s (solid_sz s o n)); [apply loc_ensure_size|apply loc_refl]. Qed.
 
 Lemma loc_fold_put : forall R a, loc a (fold_left (fun a r => put_fbk a (fst r) (snd r)) R a).
 Proof.
@@ -117,6 +115,11 @@ Proof.
     destruct (r >? a + m); simpl; [apply loc_del_fbk|apply loc_refl]. }
   destruct R as [s3 klen']. simpl in HR. simpl.
   eapply loc_trans; [exact H1|]. eapply loc_trans; [exact HL|]. eapply loc_trans; [exact HR|]. apply loc_put_fbk.
+Qed.
+Lemma loc_solid : forall s o n, loc s (solid s o n).
+Proof.
+  intros s o n. unfold solid. destruct (ensure_ok s (solid_sz s o n)); [apply loc_ensure_size|].
+  destruct (fx_solid (vr s)); [apply loc_blk_deallocate|apply loc_refl].
 Qed.
 
 Lemma loc_al_take : forall s akoff aklen length_blk aunit_blk,
